@@ -432,6 +432,8 @@ def loops(ctx, cfg, fs):
                     verdict = 'caller-iterator'; why = 'driven by an iterator supplied by the caller (%s), finite by assumption' % ty; break
                 if FINITE_ITER.match('<' + ty) or FINITE_ITER.match('<' + ty.lstrip('&mut ')):
                     verdict = 'finite-iterator'; why = 'every iteration takes the next element of %s and the loop is left on None' % ty[:80]; break
+            if verdict is None and any(c.is_(r'^structs::parse_option$') and c.bb in loop for c in b.calls()):
+                verdict = 'parse_option-driven'; why = 're-entered only after parse_option made strict progress (variant:parse_option-progress below)'
             if verdict is None:
                 o = outer(b.path)
                 if b.path in OPEN_LOOPS or o in OPEN_LOOPS:
@@ -479,10 +481,36 @@ def loops(ctx, cfg, fs):
                         other.append('comparison %s' % r.extra['op'])
             elif sw.kind == 'int' and is_chr(sp.term(sw.b)['op'], sw.b, 'term'):
                 enders |= {v for v in sw.edges if isinstance(v, int)}
-    ok = len(ci) == 1 and bool(enders) and enders <= handled and not other
+    form = 'loop over char_indices()' if len(ci) == 1 else None
+    if len(ci) == 0:
+        # the same scan written as input.find(<pattern>): a closure over the character, a char, or a slice of chars
+        finds = [c for c in sp.calls() if c.is_(r'str::<impl str>::(find|split_once|split|find_map)') and all(r.kind == 'param' and r.what == 'self' and r.path == ['input'] for r in provenance(sp, c.args[0], c.bb, 'term'))
+                 and not (op_const(c.args[1]) or {}).get('v') in ('\n',)]
+        finds = [c for c in finds if c.is_(r'::find')]
+        if len(finds) == 1:
+            form = 'input.find(pattern)'
+            c = finds[0]
+            k_ = op_const(c.args[1])
+            if k_ and 'char' in k_:
+                enders.add(k_['char'])
+            for r in provenance(sp, c.args[1], c.bb, 'term', through=None):
+                if r.kind == 'agg' and r.extra.get('closure') in fs.bodies:
+                    clo = fs.bodies[r.extra['closure']]
+                    for i_, k2, st in clo.stmts():
+                        if st['k'] == 'assign' and st['rv']['k'] == 'bin' and st['rv']['op'] in ('Eq', 'Ne'):
+                            for (x, y) in ((st['rv']['a'], st['rv']['b']), (st['rv']['b'], st['rv']['a'])):
+                                kk = op_const(y)
+                                if kk and 'char' in kk and all(q.kind == 'param' for q in provenance(clo, x, i_, k2, through=None)): enders.add(kk['char'])
+                    for sw in switches(clo):
+                        if sw.kind == 'int' and all(q.kind == 'param' for q in provenance(clo, clo.term(sw.b)['op'], sw.b, 'term', through=None)):
+                            enders |= {v for v in sw.edges if isinstance(v, int)}
+                    other += [short(cc.name) for cc in clo.calls()]
+                elif r.kind == 'const' and isinstance(r.extra, dict) and r.extra.get('chars'):
+                    enders |= set(r.extra['chars'])
+    ok = form is not None and bool(enders) and enders <= handled and not other
     ctx.ob('T.loops', 'Splitter::next|variant:word-end-is-a-handled-separator', ok,
-           'Splitter::next: a word ends only at %s; the separators consumed at the front of the input are %s; other tests of the scanned character: %s' % (
-               sorted(map(chr, enders)), sorted(map(chr, handled)), other or 'none'), where=sp.where(), cfg=cfg)
+           'Splitter::next (%s): a word ends only at %s; the separators consumed at the front of the input are %s; other tests of the scanned character: %s' % (
+               form, sorted(map(chr, enders)), sorted(map(chr, handled)), other or 'none'), where=sp.where(), cfg=cfg)
     # parse_option variant (strict progress + *len update) is checked by C06.K3; require it here too
     cc = fs.one(r'^error::Message::can_catch$')
     enum, table = enum_const_table(cc)
